@@ -3,6 +3,7 @@ package main
 import (
 	"fmt"
 	"go/token"
+	"go/types"
 	"strings"
 
 	"golang.org/x/tools/go/ssa"
@@ -71,6 +72,169 @@ func runC15(w *World, r *Report) {
 			}
 		})
 		r.Check(nErr >= 4, "C15.insert-only", "checkAndAddMappedPath conflict arms", camp.Pos(), fmt.Sprintf("%d error returns (whole-after-whole, whole-after-field, terminal-on-the-way, prefix-of-existing)", nErr), "a conflict arm is missing")
+	}
+
+	// ---- every way of declaring an input runs the overlap check first
+	r.Rule("C15.overlap-checked", "every WorkflowNode declaration that adds a data edge with mappings (direct or indirect) or static values calls checkAndAddMappedPath first and stops on its error", 4)
+	{
+		aewm := w.Fn("compose", "graph.addEdgeWithMappings")
+		wfn := w.Named("compose", "WorkflowNode")
+		n := 0
+		for _, fn := range w.RepoFuncs("compose") {
+			top := topFunc(fn)
+			if top.Signature.Recv() == nil || namedOf(top.Signature.Recv().Type()) != wfn {
+				continue
+			}
+			for _, c := range callsTo(fn, aewm) {
+				args := c.Common().Args
+				// (g, start, end, noControl, noData, mappings...)
+				if b, ok := constBool(args[4]); ok && b {
+					continue // control-only edge: carries no data
+				}
+				if cst, ok := args[5].(*ssa.Const); ok && cst.Value == nil {
+					continue // no mappings passed
+				}
+				n++
+				kind := "direct"
+				if b, ok := constBool(args[3]); ok && b {
+					kind = "indirect (no control dependency)"
+				}
+				construct := fmt.Sprintf("%s: %s data edge #%d", w.fname(top), kind, n)
+				var chk ssa.CallInstruction
+				for _, cc := range callsTo(fn, camp) {
+					if instrDominates(cc, c) {
+						chk = cc
+					}
+				}
+				if chk == nil {
+					r.Fail("C15.overlap-checked", construct, c.Pos(), "the edge's target paths are not run through checkAndAddMappedPath: a path and one of its prefixes (or the whole input and a field) are accepted when one of them arrives over this kind of edge; the run-time result then depends on map iteration order")
+					continue
+				}
+				// error arm of the check does not reach the edge
+				okErr := hasGuard(c.Block(), func(g guard) bool {
+					return guardIsNil(g, func(v ssa.Value) bool { return v == chk.Value() })
+				})
+				r.Check(okErr, "C15.overlap-checked", construct, c.Pos(), "checkAndAddMappedPath(paths) dominates the edge; its error returns", "the overlap check's error is ignored")
+			}
+		}
+		if n < 2 {
+			undecidedf("C15.overlap-checked: %d data-edge declarations in WorkflowNode methods (floor 2)", n)
+		}
+		// static values: the merge handlers are installed only after the paths went through the same check
+		wfc := w.Fn("compose", "Workflow.compile")
+		nsv := 0
+		instrs(wfc, func(in ssa.Instruction) {
+			mc, ok := in.(*ssa.MakeClosure)
+			if !ok || len(callsTo(mc.Fn.(*ssa.Function), w.Fn("compose", "mergeValues"))) == 0 {
+				return
+			}
+			nsv++
+			var chk ssa.CallInstruction
+			for _, cc := range callsTo(wfc, camp) {
+				if instrDominates(cc, mc) {
+					chk = cc
+				}
+			}
+			okk := chk != nil && hasGuard(mc.Block(), func(g guard) bool {
+				return guardIsNil(g, func(v ssa.Value) bool { return v == chk.Value() })
+			})
+			r.Check(okk, "C15.overlap-checked", fmt.Sprintf("Workflow.compile: static-value merge handler #%d", nsv), mc.Fn.Pos(), "installed after checkAndAddMappedPath(static paths) succeeded", "static values are merged into the node's input without their paths being checked against the mapped paths: a static value can overlap (and be overwritten by, or overwrite) a mapped field")
+		})
+		if nsv == 0 {
+			undecidedf("C15.overlap-checked: static-value merge handlers not found in Workflow.compile")
+		}
+	}
+
+	// ---- streaming: a chunk lacking a mapped map key is skipped, whatever the position of the key in the path
+	r.Rule("C15.stream-key-tolerance", "fieldMap skips a mapping on errMapKeyNotFound iff its allowMapKeyNotFound flag is set — no further condition; only the stream mapper sets the flag", 3)
+	{
+		fm := w.Fn("compose", "fieldMap")
+		var lit *ssa.Function
+		for _, a := range fm.AnonFuncs {
+			lit = a
+		}
+		var flag *ssa.FreeVar
+		if lit != nil {
+			for _, fv := range lit.FreeVars {
+				if b, ok := deref(fv.Type()).Underlying().(*types.Basic); ok && b.Kind() == types.Bool {
+					flag = fv
+				}
+			}
+		}
+		if lit == nil || flag == nil {
+			undecidedf("C15.stream-key-tolerance: fieldMap's literal / its captured bool flag not found")
+		}
+		var gate *ssa.If
+		instrs(lit, func(in ssa.Instruction) {
+			iff, ok := in.(*ssa.If)
+			if !ok {
+				return
+			}
+			if u, ok := iff.Cond.(*ssa.UnOp); ok && u.X == ssa.Value(flag) {
+				gate = iff
+			}
+		})
+		if gate == nil {
+			r.Fail("C15.stream-key-tolerance", "fieldMap: tolerance gate on allowMapKeyNotFound", lit.Pos(), "no branch on the flag: missing keys are either always or never tolerated")
+		} else {
+			tb, fb := gate.Block().Succs[0], gate.Block().Succs[1]
+			// `continue loop`: the true arm is (a jump to) the header of an enclosing loop, i.e. a block that
+			// dominates the gate; anything else that branches again is a further condition
+			isHeader := func(b *ssa.BasicBlock) bool { return b.Dominates(gate.Block()) }
+			tIsIf := true
+			for hop, b := 0, tb; hop < 3; hop++ {
+				if isHeader(b) {
+					tIsIf = false
+					break
+				}
+				j, ok := b.Instrs[len(b.Instrs)-1].(*ssa.Jump)
+				if !ok || len(b.Instrs) > 2 {
+					break
+				}
+				_ = j
+				b = b.Succs[0]
+			}
+			tRet := false
+			for _, in := range tb.Instrs {
+				if isReturn(in) || isPanicI(in) {
+					tRet = true
+				}
+			}
+			fErr := false
+			for _, in := range fb.Instrs {
+				if ret, ok := in.(*ssa.Return); ok && !isNilConst(ret.Results[len(ret.Results)-1]) {
+					fErr = true
+				}
+			}
+			r.Check(!tIsIf && !tRet && fErr, "C15.stream-key-tolerance", "fieldMap: flag set -> skip the mapping; flag unset -> return the error", gate.Cond.Pos(), "the flag alone decides",
+				fmt.Sprintf("with the flag set the mapping is not simply skipped (further condition on the true arm=%v, returns=%v) or with the flag unset the error is not returned (%v): streaming a map chunk by chunk fails (or non-streaming silently drops a field) where the other mode succeeds", tIsIf, tRet, !fErr))
+			extra := extraGuards(gate.Block(), guardErrNonNil, func(g guard) bool {
+				c, ok := g.cond.(*ssa.Call)
+				return ok && calleeFullName(c) == "errors.As"
+			}, func(g guard) bool {
+				op, _, y, ok := asCmp(g.cond)
+				return ok && op == token.LSS && isLenOf(y, func(ssa.Value) bool { return true })
+			}, func(g guard) bool {
+				// len(mapping.from) == 0 -> whole-input mapping handled before
+				_, x, _, ok := asCmp(g.cond)
+				return ok && isLenOf(x, func(ssa.Value) bool { return true })
+			})
+			r.Check(len(extra) == 0, "C15.stream-key-tolerance", "fieldMap: tolerance gate reached for every path element", gate.Cond.Pos(), "guards: loop headers, err != nil, errors.As(errMapKeyNotFound)", fmt.Sprintf("the tolerance applies only under further conditions %v", extra))
+		}
+		nTrue, nFalse := 0, 0
+		for _, c := range w.staticCallers(fm) {
+			if b, ok := constBool(c.Common().Args[1]); ok {
+				if b {
+					nTrue++
+					r.Check(c.Parent().Name() == "streamFieldMap$1" || c.Parent().Name() == "streamFieldMap", "C15.stream-key-tolerance", "tolerant fieldMap used by "+w.fname(c.Parent()), c.Pos(), "stream mapper", "a non-stream mapper tolerates missing keys: a missing field is silently dropped")
+				} else {
+					nFalse++
+				}
+			} else {
+				r.Fail("C15.stream-key-tolerance", "fieldMap flag at "+w.fname(c.Parent()), c.Pos(), "flag is not a constant")
+			}
+		}
+		r.Check(nTrue >= 1 && nFalse >= 1, "C15.stream-key-tolerance", "both mappers exist", fm.Pos(), fmt.Sprintf("%d tolerant (stream), %d strict", nTrue, nFalse), "the stream mapper no longer tolerates missing keys / the strict mapper is gone")
 	}
 
 	// ---- records-accumulate
